@@ -32,6 +32,7 @@ Definition dec_ev (v : tval) : ev :=
                              h_tunnel := vbool (vnth 7 v) |}
   | 25 => EBanPerm (a 1%nat) | 26 => ETempLapse (a 1%nat)
   | 27 => EBlackW (a 1%nat) | 28 => EUnblackW (a 1%nat) | 29 => EBlackLapse (a 1%nat) (a 2%nat)
+  | 30 => ECleanup (a 1%nat)
   | 14 => ECorrupt (a 1%nat) (vbool (vnth 2 v))
   | _ => EDelAnon (a 1%nat)
   end.
